@@ -355,7 +355,7 @@ namespace optree {
                     << NodeKindToString(root) << ", got: " << NodeKindToString(other_root) << ".";
                 throw py::value_error(oss.str());
             }
-            if (!root.custom->type.is(other_root.custom->type)) [[unlikely]] {
+            if (root.custom != other_root.custom) [[unlikely]] {
                 std::ostringstream oss{};
                 oss << "Custom node type mismatch; expected type: " << NodeKindToString(root)
                     << ", got type: " << NodeKindToString(other_root) << ".";
